@@ -12,6 +12,7 @@ import (
 	"path/filepath"
 	"encoding/json"
 	"fmt"
+	"math"
 	"math/big"
 	"os"
 	"reflect"
@@ -349,4 +350,72 @@ func FSList() []string {
 		out = append(out, filepath.Join(fsDir, e.Name()))
 	}
 	return out
+}
+
+// SameValue reports deep structural equality of two values of the same dynamic type: pointers
+// are followed, slices compare by length and elements (nil and empty are the same), floats by bit
+// pattern, strings and scalars by value; maps, channels and functions count as equal. Under the
+// engine the result is a solver term (see engine/interp/models_deepeq.go, which follows the same
+// rules and additionally treats slices of symbolic length as equal).
+func SameValue(a, b any) bool {
+	if a == nil || b == nil {
+		return a == nil && b == nil
+	}
+	va, vb := reflect.ValueOf(a), reflect.ValueOf(b)
+	if va.Type() != vb.Type() {
+		return false
+	}
+	return sameValue(va, vb, 0)
+}
+
+func sameValue(a, b reflect.Value, depth int) bool {
+	if depth > 48 {
+		return true
+	}
+	switch a.Kind() {
+	case reflect.Pointer:
+		if a.IsNil() || b.IsNil() {
+			return a.IsNil() && b.IsNil()
+		}
+		if a.Pointer() == b.Pointer() {
+			return true
+		}
+		return sameValue(a.Elem(), b.Elem(), depth+1)
+	case reflect.Slice, reflect.Array:
+		if a.Len() != b.Len() {
+			return false
+		}
+		for j := 0; j < a.Len(); j++ {
+			if !sameValue(a.Index(j), b.Index(j), depth+1) {
+				return false
+			}
+		}
+		return true
+	case reflect.Interface:
+		if a.IsNil() || b.IsNil() {
+			return a.IsNil() && b.IsNil()
+		}
+		if a.Elem().Type() != b.Elem().Type() {
+			return false
+		}
+		return sameValue(a.Elem(), b.Elem(), depth+1)
+	case reflect.Struct:
+		for j := 0; j < a.NumField(); j++ {
+			if !sameValue(a.Field(j), b.Field(j), depth+1) {
+				return false
+			}
+		}
+		return true
+	case reflect.Float32, reflect.Float64:
+		return math.Float64bits(a.Float()) == math.Float64bits(b.Float())
+	case reflect.String:
+		return a.String() == b.String()
+	case reflect.Bool:
+		return a.Bool() == b.Bool()
+	case reflect.Int, reflect.Int8, reflect.Int16, reflect.Int32, reflect.Int64:
+		return a.Int() == b.Int()
+	case reflect.Uint, reflect.Uint8, reflect.Uint16, reflect.Uint32, reflect.Uint64, reflect.Uintptr:
+		return a.Uint() == b.Uint()
+	}
+	return true
 }
